@@ -108,7 +108,21 @@ class ImageBatch(DataTensor):
         grids = [g for g in (getattr(arg, "_grid", None) for arg in args) if g is not None]
         if not grids:
             return None
-        if kwargs.get("dim", 0) == 0:
+        dim = kwargs.get("dim", 0)
+        if (
+            func
+            in (
+                torch.split,
+                Tensor.split,
+                torch.split_with_sizes,
+                Tensor.split_with_sizes,
+                torch.tensor_split,
+                Tensor.tensor_split,
+            )
+            and len(args) > 2
+        ):
+            dim = args[2]  # dim given as positional argument
+        if dim == 0:
             if func == torch.cat:
                 return [g for grid in grids for g in grid]
             if func in (torch.split, Tensor.split):
@@ -193,6 +207,9 @@ class ImageBatch(DataTensor):
         ):
             if type(data) not in (tuple, list):
                 raise AssertionError(f"expected split 'data' to be tuple or list, got {type(data)}")
+            if grid and isinstance(grid[0], Grid):
+                # split along a dimension other than the batch dimension: every chunk keeps all grids
+                grid = [grid] * len(data)
             if type(grid) not in (tuple, list):
                 raise AssertionError(f"expected split 'grid' to be tuple or list, got {type(grid)}")
             if len(grid) != len(data):
